@@ -15,7 +15,7 @@ THEOREMS = ["Yaw.C18.requests_cover_once", "Yaw.C18.requests_bounded", "Yaw.C18.
             "Yaw.C18.probe_and_passes_pinned", "Yaw.C18.file_slices_eq_df", "Yaw.C18.Pq.next_flatten", "Yaw.C18.Pq.run_flatten", "Yaw.C18.Pq.next_length",
             "Yaw.C18.Pq.next_lazy", "Yaw.C18.Pq.parquet_pinned"]
 RULE = ("instrumented data-frame-like source (logs every slice and every whole-column access) fed to "
-        "Catalog.from_dataframe for lengths n in {k*c-1, k*c, k*c+1, < c, 1} x chunk sizes 1..n+2 x patch modes "
+        "Catalog.from_dataframe (fresh path and overwrite of an existing cache) for lengths n in {k*c-1, k*c, k*c+1, < c, 1} x chunk sizes 1..n+2 x patch modes "
         "(centres, index column, generated centres = 2 passes); the slice log is compared EXACTLY with the Lean "
         "reader model per pass; FITS/HDF5/Parquet readers: chunk lengths and row content per pass compared with the model, "
         "Parquet row-group requests (shortest prefix covering the rows handed out, each group once per pass). "
@@ -82,6 +82,11 @@ def run(prop, tier, seed, replay):
                 else:
                     kw.update(patch_num=2, probe_size=max(6, n // 2))
                 rep = {"n": n, "chunksize": c, "mode": mode}
+                if ci % 3 == 1:
+                    # stratum: the cache already exists and is overwritten (the source must still be read once per pass)
+                    with C.Workers(1):
+                        C.make_catalog(root / f"c{ci}", df["ra"].to_numpy(), df["dec"].to_numpy(), patch=np.arange(n) % 3)
+                    rep["existing_cache"] = True
                 try:
                     Catalog.from_dataframe(root / f"c{ci}", spy, **kw)
                 except Exception as e:  # noqa: BLE001
